@@ -9,6 +9,7 @@ CONSTANTS
   HintNames = {"d", ".", "q"}
   BodyPool <- BodyRefs
   FragPool <- Frags
+  FileMeta <- Meta0
   Preambles <- Pre0
   MaxOps = 4
   MaxBody = 2
